@@ -481,6 +481,8 @@ def r_mask(ctx):
         rev_ = arg is not None and any((x[0] == 'sub' and x[2] == ('slice', ('c', None), ('c', None), ('c', -1))) or
                                        is_call(x, 'builtins.reversed') for x in walk_term(arg))
         ser_ = _inline_render(f, arg, i, K) if arg is not None and not ok else None
+        if ser_ is None and arg is not None and not ok:
+            ser_ = _comp_render(arg, i, K)
         if ser_ == 'msb-first':
             run.ok('R-MASK', f, 'verdict-on-own-kmer', nd.lineno, 'the k-mer of the index is rendered digit by digit, most significant first')
         elif ser_ == 'lsb-first':
@@ -504,6 +506,41 @@ def r_mask(ctx):
     run.check(bool(ok), 'R-MASK', f, 'returns-mask', rets[0].lineno if rets else nd.lineno, 'the mask is returned',
               'find_vertices returns something other than the mask it filled', nontrivial=False)
     return val, nd
+
+
+def _comp_render(arg, i, K):
+    """''.join(ALPHA[D(i, p)] for p in range(K)): the digit expression D is evaluated for K = 1..3 and every index and position
+    against the digit number_to_dna puts at string position p.  'msb-first' / 'lsb-first' / None"""
+    from .walk import is_alpha
+    t = arg
+    if not (t[0] == 'call' and t[1][0] == 'attr' and t[1][2] == 'join' and len(t[2]) == 1 and t[2][0][0] == 'comp'):
+        return None
+    comp = t[2][0]
+    if len(comp[3]) != 1 or comp[3][0][1]:
+        return None
+    it = comp[3][0][0]
+    elt = comp[2]
+    if not (is_call(it, 'builtins.range') and len(it[2]) == 1 and it[2][0] == K):
+        return None
+    if not (elt[0] == 'sub' and is_alpha(elt[1])):
+        return None
+    pos = [x for x in walk_term(elt[2]) if x[0] == 'iter' and x[1] == it]
+    if not pos:
+        return None
+    pos = pos[0]
+    si = strip_int(i)
+    same = rev = True
+    for k in (1, 2, 3):
+        for iv in range(4 ** k):
+            for p in range(k):
+                v = feval(elt[2], lambda x: iv if x in (i, si) else (p if x == pos else (k if x == K else UNKNOWN)))
+                if v is UNKNOWN:
+                    return None
+                if v != (iv // 4 ** (k - 1 - p)) % 4:
+                    same = False
+                if v != (iv // 4 ** p) % 4:
+                    rev = False
+    return 'msb-first' if same else ('lsb-first' if rev else None)
 
 
 def _inline_render(f, arg, i, K):
